@@ -20,7 +20,7 @@ RULE = ('seeded random (F, Q, dt): n 1..24 (mpmath subset n<=12 in quick), F sta
 ASSUMPTIONS = ['mpmath Taylor expm at 50 digits is exact relative to float64',
                'rounding bound kappa = exp(|F|_2 dt) * (1+|F|dt)  (conditioning of the block exponential)']
 REQUIRED_OBS = ['post_checked', 'mp_compared', 'composition_checked', 'zero_step_checked', 'ambient_calls_checked']
-REQUIRED_CLASSES = {'all': ['stable', 'unstable', 'nilpotent', 'zero', 'random', 'singularQ', 'dt0', 'ambient']}
+REQUIRED_CLASSES = {'all': ['stable', 'unstable', 'nilpotent', 'triangular', 'diagonal', 'zero', 'random', 'singularQ', 'dt0', 'ambient']}
 EPS = np.finfo(float).eps
 C_PHI = 5e4   # scipy 1.18 expm is only ~1e-12 relative on small blocks (measured: 620 eps)
 C_Q = 5e4
@@ -93,10 +93,18 @@ def _post(ctx, args, kwargs, result):
     PENDING.extend(check_post(F0, Q0, dt, result, obs, use_mp))
 
 
+def _pre_assembly(args, kwargs):
+    if LAST.get('ambient') and len(LAST.setdefault('assembly_calls', [])) < 40:
+        LAST['assembly_calls'].append(tuple(args))
+    return None
+
+
 def setup():
-    from pyins import kalman
+    from pyins import kalman, filters
     patch.import_all()
     patch.wrap(kalman, 'compute_process_matrices', pre=_pre, post=_post)
+    if hasattr(filters, '_compute_error_propagation_matrices'):
+        patch.wrap(filters, '_compute_error_propagation_matrices', pre=_pre_assembly, counter='assembly_calls')
 
 
 def gen(case):
@@ -104,12 +112,19 @@ def gen(case):
     cls = case['cls']
     nmax = case.get('nmax', 24)
     n = int(rng.integers(1, nmax + 1))
-    kind = cls if cls in ('stable', 'unstable', 'nilpotent', 'zero', 'random') else \
-        str(rng.choice(['stable', 'unstable', 'nilpotent', 'random']))
+    kind = cls if cls in ('stable', 'unstable', 'nilpotent', 'triangular', 'diagonal', 'zero', 'random') else \
+        str(rng.choice(['stable', 'unstable', 'nilpotent', 'triangular', 'diagonal', 'random']))
     if kind == 'zero':
         F = np.zeros((n, n))
     elif kind == 'nilpotent':
         F = np.triu(rng.standard_normal((n, n)), 1)
+    elif kind == 'triangular':          # integrator chain driven by Gauss-Markov states: triangular but NOT nilpotent
+        F = np.triu(rng.standard_normal((n, n)), 1) * (rng.random((n, n)) < 0.4)
+        F[np.diag_indices(n)] = -rng.uniform(0, 2, n) * (rng.random(n) < 0.6)
+        if rng.random() < 0.3:
+            F = F.T.copy()
+    elif kind == 'diagonal':            # independent Gauss-Markov processes
+        F = np.diag(-rng.uniform(0, 3, n) * (rng.random(n) < 0.8))
     else:
         F = rng.standard_normal((n, n)) / np.sqrt(n)
         if kind == 'stable':
@@ -136,18 +151,18 @@ def gen(case):
 
 
 def cases(seed, tier):
-    classes = ['stable', 'unstable', 'nilpotent', 'zero', 'random', 'singularQ', 'dt0']
+    classes = ['stable', 'unstable', 'nilpotent', 'triangular', 'diagonal', 'zero', 'random', 'singularQ', 'dt0']
     out = []
     if tier == 'quick':
         for i in range(224):
-            out.append(dict(seed=int(seed) * 1000003 + i, cls=classes[i % 7], mp=True, nmax=10, cost=3))
+            out.append(dict(seed=int(seed) * 1000003 + i, cls=classes[i % 9], mp=True, nmax=10, cost=3))
         for i in range(224, 1200):
-            out.append(dict(seed=int(seed) * 1000003 + i, cls=classes[i % 7], mp=False, nmax=24, cost=1))
+            out.append(dict(seed=int(seed) * 1000003 + i, cls=classes[i % 9], mp=False, nmax=24, cost=1))
     else:
         for i in range(2100):
-            out.append(dict(seed=int(seed) * 1000003 + i, cls=classes[i % 7], mp=True, nmax=24, cost=8))
+            out.append(dict(seed=int(seed) * 1000003 + i, cls=classes[i % 9], mp=True, nmax=24, cost=8))
         for i in range(2100, 30000):
-            out.append(dict(seed=int(seed) * 1000003 + i, cls=classes[i % 7], mp=False, nmax=24, cost=1))
+            out.append(dict(seed=int(seed) * 1000003 + i, cls=classes[i % 9], mp=False, nmax=24, cost=1))
     # ambient: the contract stays on compute_process_matrices while the real filters run (the F, G q^2 G^T they assemble)
     na = 12 if tier == 'quick' else 200
     out += [dict(seed=int(seed) * 1000003 + 800000 + i, cls='ambient', cost=30) for i in range(na)]
@@ -176,6 +191,27 @@ def run_ambient(case):
     n_calls = obs.get('post_checked', 0)
     obs['ambient_calls_checked'] = n_calls
     out = [dict(v, message='[ambient, inside a real filter run] ' + v['message']) for v in PENDING[:5]]
+    # the same composition law one level up, where the filters assemble F, G, q and hand them to the discretisation (second anchor of the
+    # property): one step of the assembled system must equal two half steps, whatever sensor states and noises are enabled
+    rec = LAST.get('assembly_calls', [])
+    fn = getattr(filters, '_compute_error_propagation_matrices', None)
+    if fn is not None and rec:
+        LAST['ambient'] = False
+        for args in rec[:6]:
+            pva, gyro, accel, dt_, em_, gm_, am_ = args
+            if not dt_ > 0:
+                continue
+            P1, Q1 = fn(pva, gyro, accel, dt_, em_, gm_, am_)
+            Ph, Qh = fn(pva, gyro, accel, dt_ / 2, em_, gm_, am_)
+            obs['assembly_composition_checked'] = obs.get('assembly_composition_checked', 0) + 1
+            eP = np.abs(Ph @ Ph - P1).max()
+            eQ = np.abs(Ph @ Qh @ Ph.T + Qh - Q1).max()
+            sq = max(np.abs(Q1).max(), 1e-300)
+            if eP > 1e-9 * max(1.0, np.abs(P1).max()) or eQ > 1e-9 * sq:
+                out.append(vio('assembly_composition', f'[ambient] error propagation matrices of the assembled system (states {len(P1)}, step {dt_:.4g} s) do not '
+                               f'compose over two half steps: |Phi_h Phi_h - Phi| = {eP:.3e}, |Phi_h Q_h Phi_h^T + Q_h - Qd| = {eQ:.3e} (|Qd| = {sq:.3e}); '
+                               f'gyro noises {gm_.n_noises}+{gm_.n_output_noises}, accel noises {am_.n_noises}+{am_.n_output_noises}'))
+                break
     return dict(violations=out, obs=dict(obs), nontrivial=n_calls > 0, evals=max(1, n_calls), nontrivial_count=max(1, n_calls),
                 sample=dict(cls='ambient', schedule=S['describe'], process_matrix_calls=n_calls, mpmath_compared=obs.get('mp_compared', 0)))
 
